@@ -166,7 +166,7 @@ func (a *agg) write(sc *scratch, cfg *propCfg, tier string, seed uint64, wall, b
 	}
 	cov := map[string]interface{}{
 		"evaluations":          a.cases,
-		"distinct_nontrivial":  len(a.hashes),
+		"distinct_nontrivial":  len(a.hashes) + a.extraInt["distinct_cases"],
 		"rule":                 cfg.Rule,
 		"samples":              samples,
 		"simulated_runs":       a.runs,
